@@ -31,9 +31,14 @@ buffers, transposed storage, expanded Q/p) with the buffers behind them checked 
 """
 from __future__ import annotations
 
+import contextlib
+import copy
+import io
 import math
 import os
+import pickle
 import threading
+import warnings
 
 # small dense problems: one BLAS thread is fastest and does not fight with the other jobs on the box
 os.environ.setdefault("OPENBLAS_NUM_THREADS", "1")
@@ -429,8 +434,42 @@ class Kept:
         return [lab for lab, ts in self.items if any(t.shape != c.shape or not torch.equal(t.detach(), c) for t, c in ts)]
 
 
+STYLES = ["pos", "pos", "kw", "mixed", "bounds", "default_dt"]
+GRADS = ["plain", "plain", "plain", "requires_grad", "no_grad", "inference"]
+
+
+def grad_ctx(mode):
+    if mode == "no_grad":
+        return torch.no_grad()
+    if mode == "inference":
+        return torch.inference_mode()
+    return contextlib.nullcontext()
+
+
+def call_lqr(lq, xv, dt_call, ut, style, Bn, T, nc):
+    """the same solve through different spellings of the call (positional / keyword / mixed / defaults / bounds so wide
+    that any reading of u_lower, u_upper, du leaves the unconstrained optimum)"""
+    if style == "kw":
+        return lq(x_init=xv, dt=dt_call, u_traj=ut, u_lower=None, u_upper=None, du=None)
+    if style == "mixed":
+        return lq(xv, u_traj=ut, dt=dt_call)
+    if style == "bounds":
+        big = 1e30
+        lo = torch.full((Bn, T, nc), -big, dtype=xv.dtype)
+        return lq(xv, dt_call, ut, lo, -lo, big)
+    if style == "default_dt" and isinstance(dt_call, int) and dt_call == 1:
+        return lq(xv) if ut is None else lq(xv, u_traj=ut)
+    return lq(xv, dt_call) if ut is None else lq(xv, dt_call, ut)
+
+
+def known_param_poison(kf, case):
+    """known-findings matcher: site System.forward, inputs that are nn.Parameter (state/input registered as parameters)"""
+    return ("dynamics.py" in str(kf.get("site", "")) and "Parameter" in str(kf.get("predicate", ""))
+            and isinstance(case.get("focus"), list) and case["focus"] and case["focus"][0] == "param_x0")
+
+
 def solve_opts(op):
-    o = {"dt": None, "xview": "contig", "uview": "contig", "prev_obj": False}
+    o = {"dt": None, "xview": "contig", "uview": "contig", "prev_obj": False, "style": "pos", "grad": "plain", "uparam": False}
     if len(op) > 2 and isinstance(op[2], dict):
         o.update(op[2])
     return o
@@ -446,7 +485,7 @@ def run_lqr_case(ctx: Ctx, case, lines, metas):
     system = U.make_system(case, prob)
     lq = U.make_lqr(case, prob, system)
     x0 = torch.tensor(prob["x0"], dtype=dt_t)
-    prev_u, prev_obj, first, nsolve, modelled = None, None, None, 0, False
+    prev_u, prev_obj, first, nsolve, modelled, last_out = None, None, None, 0, False, None
     kept = Kept()
     ok = True
     L = prob["L"]
@@ -492,6 +531,111 @@ def run_lqr_case(ctx: Ctx, case, lines, metas):
                 refs = [U.make_ref(prob, b, T) for b in range(Bn)]
                 first = None
                 ctx.count("lqr.op.mutate-x0")
+            elif kind == "fail":
+                # ERROR PATHS ARE ATOMIC: a call that raises (detected early or late) must leave the system, the LQR object
+                # and the caller's tensors as they were; the history simply continues afterwards
+                why = op[1]
+                snap = Snap([("x_init", x0), ("Q", lq.Q), ("p", lq.p)] + sys_tensors(system))
+                att = lqr_attrs(lq)
+                raised = None
+                try:
+                    with warnings.catch_warnings():
+                        warnings.simplefilter("ignore")
+                        if why == "x0_1d":
+                            lq(x0[0], case["dt"])
+                        elif why == "x0_dtype":
+                            lq(x0.to(torch.float32 if dt_t == torch.float64 else torch.float64), case["dt"])
+                        elif why == "x0_ns":
+                            lq(torch.zeros(Bn, ns + 1, dtype=dt_t), case["dt"])
+                        elif why == "u_T":
+                            lq(x0, case["dt"], torch.zeros(Bn, T + 1, nc, dtype=dt_t))
+                        elif why == "u_nc":
+                            lq(x0, case["dt"], torch.zeros(Bn, T, nc + 1, dtype=dt_t))
+                        elif why == "nonpd":
+                            Qb = torch.tensor(prob["Q"], dtype=dt_t)
+                            Qb[:, 0] = -Qb[:, 0]             # indefinite at t = 0: Cholesky fails in the LAST backward iteration
+                            U.pp().module.LQR(system, Qb, torch.tensor(prob["p"], dtype=dt_t), T)(x0, case["dt"])
+                        elif why == "sys_raise" and prob["tv"]:
+                            T2 = L + 1                      # the clock-indexed tables end before the horizon: IndexError mid roll-out
+                            c2 = dict(case, T=T2, qshape="full", mixed=False)
+                            p2 = U.build_problem(c2)
+                            U.make_lqr(c2, p2, system)(x0, case["dt"])
+                except Exception as e:      # the failing call is EXPECTED to raise
+                    raised = type(e).__name__
+                ctx.count(f"lqr.op.fail.{why}.{'raised' if raised else 'accepted'}")
+                if snap.changed() or lqr_attrs(lq) != att:
+                    ctx.fail(dict(case, focus=op), f"atomicity: a failing call ({why}: {raised}) changed {snap.changed() or 'the LQR attributes'}")
+                    ok = False
+            elif kind == "param_x0":
+                # DUCK TYPES + ATOMICITY: x_init given as nn.Parameter on fresh objects, then a plain solve on the same objects
+                sysp = U.make_system(case, prob)
+                lqp = U.make_lqr(case, prob, sysp)
+                first_exc = None
+                try:
+                    xp_, up_, cp_ = lqp(torch.nn.Parameter(x0.detach().clone()), case["dt"])
+                    ok &= check_solution(ctx, dict(case, focus=op), prob, refs, xp_, up_, cp_, "solve with x_init given as nn.Parameter")
+                except Exception as e:
+                    first_exc = f"{type(e).__name__}: {str(e)[:100]}"
+                try:
+                    xp_, up_, cp_ = lqp(x0, case["dt"])
+                    ok &= check_solution(ctx, dict(case, focus=op), prob, refs, xp_, up_, cp_, "plain solve after a solve with an nn.Parameter x_init")
+                except Exception as e:
+                    ctx.fail(dict(case, focus=op), f"atomicity: after a solve with x_init given as nn.Parameter ({first_exc or 'which succeeded'}) every "
+                                                   f"later solve on the same system raises {type(e).__name__}: {str(e)[:120]}",
+                             known_matcher=known_param_poison)
+                    ok = False
+                ctx.count("lqr.op.param_x0")
+            elif kind == "copy":
+                # COPIES OF OBJECTS follow their own law: solve on the copy, disturb the copy, the original is unaffected
+                mode = op[1]
+                xs_, us_, cs_ = lq(x0, case["dt"])          # plain solve first: the objects hold no autograd graph
+                ok &= check_solution(ctx, dict(case, focus=op), prob, refs, xs_, us_, cs_, f"solve before {mode}")
+                if mode == "deepcopy":
+                    lq2 = copy.deepcopy(lq)
+                elif mode == "copy":
+                    lq2 = copy.copy(lq)
+                elif mode == "pickle":
+                    lq2 = pickle.loads(pickle.dumps(lq))
+                else:                                       # state_dict of the system loaded into another system object
+                    sys2 = U.make_system(case, U.build_problem(dict(case, data_seed=case["data_seed"] + 17)))
+                    sys2.load_state_dict(system.state_dict())
+                    lq2 = U.make_lqr(case, prob, sys2)
+                x2, u2, c2_ = lq2(x0, case["dt"])
+                ok &= check_solution(ctx, dict(case, focus=op), prob, refs, x2, u2, c2_, f"solve on the {mode} copy")
+                if mode != "copy":                          # independent objects: disturb the copy's system
+                    b2 = dict(lq2.system.named_buffers())
+                    b2["_A"].mul_(-1.5)
+                    b2["_B"].mul_(0.5)
+                    lq2.system.systime = 1 if not prob["tv"] else min(1, L - 1)
+                    lq2.system(x0.clone(), torch.zeros(Bn, nc, dtype=dt_t))
+                    xo_, uo_, co_ = lq(x0, case["dt"])
+                    ok &= check_solution(ctx, dict(case, focus=op), prob, refs, xo_, uo_, co_, f"solve on the original after its {mode} copy was changed")
+                    pm = U.refresh_from_system(case, prob, lq2.system)
+                    rm = [U.make_ref(pm, b, T) for b in range(Bn)]
+                    xm_, um_, cm_ = lq2(x0, case["dt"])
+                    ok &= check_solution(ctx, dict(case, focus=op), pm, rm, xm_, um_, cm_, f"solve on the changed {mode} copy")
+                    if safe_clock(system) != T:
+                        ctx.fail(dict(case, focus=op), f"copies: the original system's clock is {safe_clock(system)} after its own solve (expected {T}); "
+                                                       f"the {mode} copy was used in between")
+                        ok = False
+                else:
+                    xo_, uo_, co_ = lq(x0, case["dt"])
+                    ok &= check_solution(ctx, dict(case, focus=op), prob, refs, xo_, uo_, co_, "solve on the original after its shallow copy solved")
+                ctx.count(f"lqr.op.copy.{mode}")
+            elif kind == "scribble":
+                # the caller overwrites the tensors a solve returned: nothing else may change
+                if last_out is not None and all(isinstance(t, torch.Tensor) and not t.is_inference() for t in last_out):
+                    snap = Snap([("x_init", x0), ("Q", lq.Q), ("p", lq.p)] + sys_tensors(system))
+                    att = lqr_attrs(lq)
+                    with torch.no_grad():
+                        last_out[0].mul_(0).add_(12345.0)
+                        last_out[1].fill_(-7.0)
+                        last_out[2].zero_()
+                    if snap.changed() or lqr_attrs(lq) != att:
+                        ctx.fail(dict(case, focus=op), f"ownership: overwriting the tensors returned by the last solve changed {snap.changed() or 'the LQR attributes'}")
+                        ok = False
+                    kept, prev_obj = Kept(), None
+                    ctx.count("lqr.op.scribble")
             elif kind == "other":
                 # another problem (other horizon, costs, start, for shared matrices also another batch size) solved on
                 # the same system object
@@ -527,20 +671,35 @@ def run_lqr_case(ctx: Ctx, case, lines, metas):
                 nsolve += 1
                 o = solve_opts(op)
                 dt_call = case["dt"] if o["dt"] is None else o["dt"]
+                if isinstance(dt_call, str):                 # "tensor:2.0": dt given as a 0-dim tensor
+                    dt_call = torch.tensor(float(dt_call.split(":")[1]))
                 un = U.nominal(case, prob, op[1], prev_u)
                 if un is None:
                     ut, ubase = None, None
-                elif op[1] == "prev" and o["prev_obj"] and prev_obj is not None:
+                elif op[1] == "prev" and o["prev_obj"] and prev_obj is not None and not prev_obj.requires_grad \
+                        and not prev_obj.is_inference():
                     ut, ubase = prev_obj, prev_obj           # the tensor returned by the previous call itself
                 else:
                     ut, ubase = U.as_view(torch.tensor(un, dtype=dt_t), o["uview"])
                 xv, xbase = U.as_view(x0, o["xview"])
+                if o["grad"] == "requires_grad":             # same values, operands that carry an autograd graph
+                    xv = xv.detach().clone().requires_grad_(True)
+                    xbase = xv
+                    if ut is not None:
+                        ut = ut.detach().clone().requires_grad_(True)
+                        ubase = ut
+                elif o["uparam"] and ut is not None:         # u_traj given as an nn.Parameter
+                    ut = torch.nn.Parameter(ut.detach().clone())
+                    ubase = ut
                 snap = Snap([("x_init", xv), ("x_init buffer", xbase), ("u_traj", ut), ("u_traj buffer", ubase), ("Q", lq.Q), ("p", lq.p)]
                             + sys_tensors(system))
                 att = lqr_attrs(lq)
                 tag = (f"solve #{nsolve} (u_traj={op[1] if isinstance(op[1], str) else 'rand*%g' % op[1][1]}, clock at entry "
-                       f"{safe_clock(system)}, dt={dt_call}, x_init {o['xview']}, u_traj {o['uview']})")
-                x, u, cost = lq(xv, dt_call, ut) if (ut is not None or nsolve % 2) else lq(xv, dt_call)
+                       f"{safe_clock(system)}, dt={o['dt'] if o['dt'] is not None else case['dt']}, x_init {o['xview']}, u_traj {o['uview']}, "
+                       f"call style {o['style']}, grad mode {o['grad']}{', u_traj Parameter' if o['uparam'] else ''})")
+                with warnings.catch_warnings(), grad_ctx(o["grad"]):
+                    warnings.simplefilter("ignore")
+                    x, u, cost = call_lqr(lq, xv, dt_call, ut, o["style"], Bn, T, nc)
                 ch = snap.changed()
                 if ch:
                     ctx.fail(case, f"purity: {tag}: LQR modified {ch}")
@@ -550,6 +709,15 @@ def run_lqr_case(ctx: Ctx, case, lines, metas):
                     ok = False
                 good = check_solution(ctx, case, prob, refs, x, u, cost, tag, ubar=un)
                 ok &= good
+                if good:
+                    # OUTPUTS OWN THEIR MEMORY: no internal overlap, no storage shared with arguments or object state
+                    others = [("x_init", xv), ("x_init buffer", xbase), ("u_traj", ut), ("u_traj buffer", ubase), ("LQR.Q", lq.Q), ("LQR.p", lq.p),
+                              ("LQR.x_traj", getattr(lq, "x_traj", None)), ("LQR.u_traj", getattr(lq, "u_traj", None))] + sys_tensors(system)
+                    for nm, out in (("x", x), ("u", u), ("cost", cost)):
+                        why = U.owns_memory(out, others + [(n2, o2) for n2, o2 in (("x", x), ("u", u), ("cost", cost)) if n2 != nm])
+                        if why:
+                            ctx.fail(case, f"ownership: {tag}: returned {nm} {why}")
+                            ok = False
                 if good and nsolve == 1:
                     ok &= perturb_test(ctx, case, refs, u, tag, ubar=un)
                 tl = [refs[b].tols(None if un is None else un[b], eps) for b in range(Bn)]
@@ -595,7 +763,10 @@ def run_lqr_case(ctx: Ctx, case, lines, metas):
                             ok = False
                 prev_u = u.detach().double().numpy()
                 prev_obj = u
+                last_out = (x, u, cost)
                 kept.add(f"solve #{nsolve}", x, u, cost)
+                ctx.count(f"lqr.solve.style.{o['style']}")
+                ctx.count(f"lqr.solve.grad.{o['grad']}")
                 ctx.count(f"lqr.solve.nominal.{op[1] if isinstance(op[1], str) else 'rand'}")
                 ctx.count(f"lqr.solve.xview.{o['xview']}")
                 ctx.count(f"lqr.solve.uview.{o['uview']}")
